@@ -46,7 +46,8 @@ type fakeRunner struct {
 
 var _ taskctl.Runner = &fakeRunner{}
 
-var errExit1 = errors.New("exit status 1")
+// an error text with characters that must survive persisting and reloading unchanged
+var errExit1 = errors.New("exit status 1: 100% of /data used, %d left, \"quoted\" %s\nsecond line")
 
 func newFakeRunner(w *world, ji *jobInfo) *fakeRunner {
 	f := &fakeRunner{w: w, job: ji, open: map[string]*openRun{}}
